@@ -176,6 +176,26 @@ class Monitor:
                             break
 
 
+def edit_sources(hw, rnd, stats):
+    """Between clock calls a testbench may retune the design through public attributes (the `const.value = v; sim.clk()` idiom
+    of the repo's own unit tests): Constant.value, entries of Sequence.values, Reg.reset_value get negative / oversized /
+    in-range values.  Whatever is assigned, the wires must stay in range."""
+    for l in netgen.my_leaves(hw):
+        n = type(l).__name__
+        if n == 'Constant' and rnd.random() < 0.35:
+            w = l.r.getWidth()
+            l.value = rnd.choice([-1, 1 << w, (1 << w) + 5, -(1 << w) - 3, (1 << w) - 1, 0, rnd.getrandbits(w), (1 << (w + 9)) - 1, -rnd.getrandbits(w + 2) - 1])
+            stats['source_edits_Constant'] = stats.get('source_edits_Constant', 0) + 1
+        elif n == 'Sequence' and rnd.random() < 0.5 and getattr(l, 'values', None):
+            w = l.r.getWidth()
+            l.values[rnd.randrange(len(l.values))] = rnd.choice([-1, 1 << w, (1 << w) + 5, -(1 << w) - 3, rnd.getrandbits(w), 1 << 70])
+            stats['source_edits_Sequence'] = stats.get('source_edits_Sequence', 0) + 1
+        elif n == 'Reg' and rnd.random() < 0.15:
+            w = l.q.getWidth()
+            l.reset_value = rnd.choice([-1, 1 << w, (1 << w) + 5, -(1 << w) - 3, rnd.getrandbits(w)])
+            stats['source_edits_Reg_reset_value'] = stats.get('source_edits_Reg_reset_value', 0) + 1
+
+
 def add_waveform_observers(hw, rnd, stats):
     """Harness waveforms over watch lists as users write them: wires of mixed widths, the same wire listed twice, a wire
     together with one of its InPort/OutPort objects; once in random order and once widest first (a repeated wide wire
@@ -239,8 +259,10 @@ def observe(run, make, vectors, case, stats, label, cycles_per_vector=1):
                 sim = hw.getSimulator()
             sim.addListener(cls['Listener'](mon.scan))
             mon.scan('construct')
+            mrnd = rng(0, 'C06', 'edit', label)
             for vec in vectors:
                 before = rec.raw_oor
+                edit_sources(hw, mrnd, stats)
                 for w, v in zip(ins, vec):
                     w.put(v)
                 with muted():
@@ -412,7 +434,7 @@ def special_plans():
             out.append(('pad_put_%d_%d_k%d_o%d' % (pw, aw, k, off), _plan(wires, ['a'], blocks, bidir=('pad',))))
     # multi-bit wires on carry / control ports (the constructors accept them), results wider than / equal to / narrower
     # than the operands; the carry is poked (all-ones, raw out-of-range) or driven by a free running counter (long runs)
-    for kind in ('AddCarryInWide', 'AddWideCI'):    # SubBorrowIn is unusable on the pinned tree (propagate reads self.ci, the constructor sets self.bi)
+    for kind in ('AddCarryInWide', 'AddWideCI', 'SubBorrowInWide'):
         for aw, bw, rw, cw in [(4, 4, 5, 3), (4, 4, 4, 4), (8, 3, 9, 8), (3, 5, 6, 7), (8, 8, 16, 12), (1, 1, 2, 2), (6, 6, 3, 6), (16, 16, 17, 16)]:
             if rw < aw:
                 continue        # AddCarryIn / SubBorrowIn (also inside Add) assert rw >= aw
@@ -462,11 +484,138 @@ def plan_case(run, name, plan, rnd, stats, workload, n_cycles=None, raw=True):
     return pv
 
 
+NONINT = ['float_1.5', 'float_253.75', 'float_-0.5', 'float_1e30', 'inf', '-inf', 'nan', 'fraction_7_2', 'np_float64', 'np_float32', 'np_float16',
+          'none', 'str_7', 'decimal_3.5', 'complex_3', 'bytes', 'list', 'np_int64', 'np_uint8', 'bool', 'np_bool']
+
+
+def nonint(code):
+    import decimal
+    import fractions
+    import numpy
+    return {'float_1.5': 1.5, 'float_253.75': 253.75, 'float_-0.5': -0.5, 'float_1e30': 1e30, 'inf': float('inf'), '-inf': float('-inf'), 'nan': float('nan'),
+            'fraction_7_2': fractions.Fraction(7, 2), 'np_float64': numpy.float64(6.25), 'np_float32': numpy.float32(2.5), 'np_float16': numpy.float16(1.5),
+            'none': None, 'str_7': '7', 'decimal_3.5': decimal.Decimal('3.5'), 'complex_3': 3 + 0j, 'bytes': b'1', 'list': [1],
+            'np_int64': numpy.int64(300), 'np_uint8': numpy.uint8(200), 'bool': True, 'np_bool': numpy.bool_(True)}[code]
+
+
+def decode_plan(o):
+    """'ni:<code>' strings in plan parameters / catalogue cfgs stand for the non-integer objects of nonint()"""
+    if isinstance(o, dict):
+        return {k: decode_plan(v) for k, v in o.items()}
+    if isinstance(o, list):
+        return [decode_plan(v) for v in o]
+    if isinstance(o, str) and o.startswith('ni:'):
+        return nonint(o[3:])
+    return o
+
+
+def nonint_plans():
+    C = netgen.cat_block
+    N = netgen.native_block
+    out = []
+    # stimulus put() on undriven inputs
+    out.append(('nonint_put_inputs', _plan(dict(a=8, b=8, r=8, q=8, c=1), ['a', 'b', 'c'],
+                                           [C('s', 'Sub', (8, 8, 8), ['a', 'b', 'r']), N('g', 'Reg', dict(d='r', q='q', enable='c', reset=None), {}),
+                                            N('wv', 'Waveform', dict(w0='a', w1='r', w2='q'))]), 'inputs'))
+    out.append(('nonint_put_bidir', _plan(dict(pout=4, bd=4, pin=4, poe=1), ['pout', 'poe', 'bd'],
+                                          [N('bb', 'BidirBuf', dict(pout='pout', poe='poe', pin='pin', bidir='bd'), {})], bidir=('bd',)), 'inputs'))
+    # user blocks that compute with true division
+    for k in (2, 3, 0.5):
+        out.append(('nonint_floatput_k%s' % k, _plan(dict(a=8, r=8, q=4), ['a'], [N('f', 'FloatPut', dict(a='a', r='r'), dict(k=k)),
+                                                                              N('g', 'Reg', dict(d='r', q='q', enable=None, reset=None), {})]), 'ints'))
+        out.append(('nonint_floatprepare_k%s' % k, _plan(dict(a=8, r=8, x=8), ['a'], [N('f', 'FloatPrepare', dict(a='a', r='r'), dict(k=k)),
+                                                                                     C('n', 'Not', (8, 8), ['r', 'x']), N('cap', 'StreamCapture', dict(x='r'))]), 'ints'))
+    # non-integer constants / stimulus data / reset values
+    for code in NONINT:
+        v = 'ni:' + code
+        # Constant asserts an int at construction; the value is reassigned afterwards (the `const.value = v; sim.clk()` idiom)
+        out.append(('nonint_constant_' + code, _plan(dict(r=8, x=8), [], [C('c', 'Constant', (8, 3), ['r']), C('n', 'Not', (8, 8), ['r', 'x'])]), 'const:' + code))
+        out.append(('nonint_sequence_' + code, _plan(dict(r=8, q=8), [], [N('s', 'Sequence', dict(r='r'), dict(values=[3, v, 200, v], once=False)),
+                                                                           N('g', 'Reg', dict(d='r', q='q', enable=None, reset=None), {})]), 'none'))
+        out.append(('nonint_reg_reset_' + code, _plan(dict(d=8, q=8, rs=1), ['d', 'rs'], [N('g', 'Reg', dict(d='d', q='q', enable=None, reset='rs'), dict(reset_value=v))]), 'ints'))
+    return out
+
+
+def nonint_case(run, name, plan, drive, stats):
+    """"the value is an integer v": a non-integer offered to a wire (stimulus, constant, sequence data, reset value, the result of a
+    user block) is either refused with an exception or what ends up on the wire is still an integer in range.
+    drive: 'inputs' -> every NONINT object is put() on every input, then clk(1); 'ints' -> integer stimulus; 'none' -> just clock."""
+    cls = classes()
+    case = dict(workload='nonint', name=name, plan=plan, drive=drive, vectors=[])
+    by = stats.setdefault('per_workload', {})
+    by['nonint'] = by.get('nonint', 0) + 1
+    hw = None
+    mon = None
+    with hooks.install(keep_events=False, contracts=True) as rec:
+        try:
+            with muted():
+                b = netgen.build(decode_plan(plan))
+                hw = b.hw
+                mon = Monitor(run, hw, case, stats, name)
+                cls['Probe'](hw, 'verif_probe', mon.scan)
+                sim = hw.getSimulator()
+            sim.addListener(cls['Listener'](mon.scan))
+            mon.scan('construct')
+        except Exception:
+            stats['nonint_refused_at_creation'] = stats.get('nonint_refused_at_creation', 0) + 1
+            sim = None
+            if hw is not None:
+                mon = mon or Monitor(run, hw, case, stats, name)
+                mon.crashed = True
+                mon.scan('after_refusal')
+        if sim is not None:
+            ins = [b.W[i] for i in plan['inputs']]
+            steps = []
+            if drive == 'inputs':
+                for code in NONINT:
+                    for w in ins:
+                        steps.append((w, code))
+            elif drive.startswith('const:'):
+                steps = [(None, None), ('const', drive[6:]), (None, None), ('const', drive[6:])]
+            else:
+                for k in range(8):
+                    steps.append((None, None))
+            for w, code in steps:
+                stats['nonint_steps'] = stats.get('nonint_steps', 0) + 1
+                try:
+                    if w == 'const':
+                        stats['nonint_stimuli'] = stats.get('nonint_stimuli', 0) + 1
+                        for l in netgen.my_leaves(hw):
+                            if type(l).__name__ == 'Constant':
+                                l.value = nonint(code)
+                    elif w is not None:
+                        stats['nonint_stimuli'] = stats.get('nonint_stimuli', 0) + 1
+                        w.put(nonint(code))
+                        stats['nonint_put_accepted'] = stats.get('nonint_put_accepted', 0) + 1
+                    elif drive == 'ints':
+                        for k, x in enumerate(ins):
+                            x.put((37 * stats['nonint_steps'] + 11 * k) & 0xFF)
+                    with muted():
+                        sim.clk(1)
+                    mon.scan('after_clk')
+                except Exception:
+                    stats['nonint_refused'] = stats.get('nonint_refused', 0) + 1
+                    mon.crashed = True
+                    hooks.drop_pending()
+                    mon.scan('after_refusal')
+    if mon is not None:
+        for step in (lambda: mon.judge_recorder(rec), mon.captured):
+            try:
+                step()
+            except Exception as e:
+                stats['judge_raised'] = stats.get('judge_raised', 0) + 1
+                stats.setdefault('sim_raised_examples', []).append('%s: judge %r' % (name, e))
+    hooks.drop_pending()
+    stats['nonint_designs'] = stats.get('nonint_designs', 0) + 1
+
+
 def run_check(run, tier, seed, shard):
     import numpy
     run.assume('every wire reachable from the HWSystem = _wires of every Logic in the hierarchy plus every port wire; FakeWire objects are not wires')
     run.assume('bool counts as an integer (numbers.Integral); the write post-condition additionally demands stored == argument mod 2**width for integral '
                'arguments, which is how the library realises "fit" (a narrower mask would keep the range but silently drop the top bit)')
+    run.assume('a non-integer (float, Fraction, Decimal, numpy float, None, str, ...) offered to a wire must either be refused with an exception or leave an integer in range on the wire; '
+               'on the pinned tree every such object is refused with TypeError (numpy integers and bools are integers and are accepted)')
     run.assume('out-of-range stimulus is applied through Wire.put on undriven wires (the documented way to drive inputs); the numpy/random generators used by '
                'RandomValue and Div/Mod-by-zero are seeded by the harness for reproducibility')
     quick = tier == 'quick'
@@ -486,6 +635,12 @@ def run_check(run, tier, seed, shard):
             run.inconclusive.append('special design %s did not build' % name)
         elif k % 23 == 0:
             run.sample(dict(workload='special', name=name, raw_out_of_range_arguments=sum(pv), cycles=len(pv)))
+
+    # 1b. non-integers offered to wires
+    npl = nonint_plans()
+    for k in shard_slice(range(len(npl)), shard):
+        name, plan, drive = npl[k]
+        nonint_case(run, name, plan, drive, stats)
 
     # 2. catalogue sweep
     work = []
@@ -540,6 +695,8 @@ def post_merge(run, tier, seed):
                    ('scans_listener', 'the listener never ran'), ('scans_construct', 'nothing observed after construction'),
                    ('write_postconditions', 'no put/prepare/settle post-condition was evaluated'), ('events_prepare', 'no prepare event'),
                    ('events_put', 'no put event'), ('captured_values', 'no StreamCapture/Waveform value was inspected'),
+                   ('source_edits_Constant', 'no Constant.value was reassigned between clock calls'), ('source_edits_Sequence', 'no Sequence data was edited between clock calls'),
+                   ('nonint_stimuli', 'no non-integer stimulus was offered to a wire'), ('nonint_refused', 'no non-integer was refused (nothing decided about them)'),
                    ('waveform_samples_compared', 'no Waveform sample was compared with the live wire'),
                    ('watch_repeated_wires', 'no Waveform watch list with a repeated wire'), ('watch_ports_of_listed_wires', 'no watch list with a wire and one of its ports')):
         if not c.get(k):
@@ -567,7 +724,9 @@ def replay(run, case):
     random.seed(case.get('seed', 1) * 1000)
     import numpy
     numpy.random.seed(case.get('seed', 1) * 1000)
-    if c['workload'] == 'catalogue':
+    if c['workload'] == 'nonint':
+        nonint_case(run, c.get('name', 'nonint'), c['plan'], c.get('drive', 'none'), stats)
+    elif c['workload'] == 'catalogue':
         py4hw = P()
         entry = catalog.by_name(c['block'])
         cfg = netgen.norm_cfg(c['cfg'])
